@@ -1,45 +1,32 @@
 #!/usr/bin/env python3
 """bin/refactor_matrix.py [names...] -- for every /verif/refactors/<name>/patch.diff (a behaviour-preserving
-refactoring written by a sub-agent): apply to /repo, run the quick check of every property, undo.  A violation here
-is a false alarm unless it is a C06 site whose key merely moved (the function already has a known finding).
-Writes refactors/matrix.json."""
-import json, os, subprocess, sys, glob, re
+refactoring written by a sub-agent): apply it to a scratch copy of /repo's current tree, run the quick check of every
+property, drop the copy.  Every violation here is an alarm on code whose behaviour did not change.
+Writes refactors/matrix.json; /repo is only read."""
+import json, os, sys, glob
 VERIF = os.path.dirname(os.path.dirname(os.path.abspath(__file__)))
 sys.path.insert(0, VERIF)
-from rules import props
-from concurrent.futures import ThreadPoolExecutor
-PROPS = sorted(props.registry())
+sys.path.insert(0, os.path.join(VERIF, "bin"))
+import _matrix
 args = [a for a in sys.argv[1:] if not a.startswith("--")]
-REPO = os.environ.get("REFAC_REPO", "/repo")   # a scratch worktree at /repo HEAD can be used instead
-st = subprocess.run(["git", "-C", REPO, "status", "--porcelain", "--untracked-files=no"], capture_output=True, text=True).stdout.strip()
-if st:
-    sys.exit("refusing: /repo has uncommitted changes")
 mpath = os.path.join(VERIF, "refactors", "matrix.json")
 matrix = json.load(open(mpath)) if os.path.exists(mpath) else {}
+items = []
 for d in sorted(glob.glob(os.path.join(VERIF, "refactors", "*"))):
     name = os.path.basename(d)
-    if not os.path.isdir(d) or (args and name not in args):
-        continue
-    patch = os.path.join(d, "patch.diff")
-    r = subprocess.run(["git", "-C", REPO, "apply", patch], capture_output=True, text=True)
-    if r.returncode != 0:
-        matrix[name] = {"error": "patch does not apply: " + r.stderr[-300:]}
-        print(name, "DOES NOT APPLY")
-        continue
-    res = {}
-    try:
-        def one(p):
-            return p, subprocess.run([os.path.join(VERIF, "bin", "check"), p, "--no-evidence", "--repo", REPO], capture_output=True, text=True)
-        first = [one(PROPS[0])]
-        with ThreadPoolExecutor(8) as ex:
-            rest = list(ex.map(one, PROPS[1:]))
-        for p, c in first + rest:
-            keys = re.findall(r"^  key=(.*)$", c.stdout, re.M)
-            if c.returncode != 0:
-                res[p] = {"exit": c.returncode, "violations": keys[:12], "n": len(keys)}
-    finally:
-        subprocess.check_call(["git", "-C", REPO, "checkout", "--", "."])
-    matrix[name] = {"alarms": res}
-    print(name, "clean" if not res else "ALARMS " + json.dumps({p: v["violations"][:3] for p, v in res.items()})[:400])
-os.makedirs(os.path.dirname(mpath), exist_ok=True)
+    if os.path.isdir(d) and (not args or name in args) and os.path.exists(os.path.join(d, "patch.diff")):
+        items.append((name, os.path.join(d, "patch.diff")))
+
+
+def done(name, res):
+    if res is None:
+        matrix[name] = {"error": "patch does not apply"}
+        print(name, "DOES NOT APPLY", flush=True)
+        return
+    al = {p: {"exit": v["exit"], "violations": v.get("violations", [])[:12], "n": v.get("n", 0), **({"tail": v["tail"]} if v.get("tail") else {})} for p, v in res.items() if v.get("exit")}
+    matrix[name] = {"alarms": al}
+    print(name, "clean" if not al else "ALARMS " + json.dumps({p: v["violations"][:3] or v.get("tail", "")[-200:] for p, v in al.items()})[:400], flush=True)
+
+
+_matrix.run_many(items, None, on_done=done)
 json.dump(matrix, open(mpath, "w"), indent=1, sort_keys=True)
